@@ -63,6 +63,19 @@ def coq_part(rep, prop):
     for e in examples:
         rep.obligations.append(e)
         rep.discharged.append(e)
+    if rep.tier == "thorough":
+        try:
+            out = vlib.coqchk(prop)
+            ax = [l.strip() for l in out.split("\n") if l.strip()]
+            rep.notes.append("coqchk: " + " | ".join(ax[-8:]))
+            if "Axioms: <none>" not in out.replace("* ", ""):
+                ok = False
+                rep.violation("coqchk reports axioms for Properties/%s" % prop,
+                              {"failing_input_found": False, "theorem_or_correspondence": "coqchk", "report": out[-2000:]})
+        except BuildError as e:
+            ok = False
+            rep.violation("coqchk: %s" % e.what, {"failing_input_found": False, "theorem_or_correspondence": "coqchk",
+                                                  "log_tail": e.log[-2000:]})
     return ok
 
 
